@@ -106,8 +106,17 @@ pub fn gen(stream: &str, seed: u64, n: usize, out: &mut Out) {
             4 => { let mut h = relabel(&mut r, &g1, directed); if !h.nw.is_empty() { let k = r.below(h.n); h.nw[k] += 1; } if !h.es.is_empty() && r.chance(50) { let k = r.below(h.es.len()); h.es[k].2 += 1; } h }  // weights changed
             _ => { let k = 1 + r.below(5); rand_graph(&mut r, k, directed, dens, loops) }       // unrelated
         };
+        // one case in 150: a path of 19..22 nodes against a relabelled copy (node weights = position, matched modulo 4), so that
+        // the size_hint / collect path of the iterator sees pattern graphs around the 20! boundary of its bound table
+        let big = raw_order && (r.chance(2) || id == 7);
+        let (g0, g1, kind) = if big {
+            let n = [20usize, 21, 21, 22][r.below(4)];
+            let p = Sg { n, nw: (0..n as i64).collect(), es: (0..n - 1).map(|i| (i, i + 1, 0)).collect() };
+            (relabel(&mut r, &p, directed), p, 9)
+        } else { (g0, g1, kind) };
         let mut qs: Vec<GOp> = vec![("iso".into(), vec![]), ("sub".into(), vec![])];
         let nm = [0i64, 2, 4][r.below(3)]; let em = [0i64, 2, 4][r.below(3)];
+        let nm = if big { 4 } else { nm };
         qs.push(("iso_matching".into(), vec![nm, em]));
         qs.push(("sub_matching".into(), vec![nm, em]));
         qs.push(("sub_iter".into(), vec![nm, em]));
